@@ -13,8 +13,21 @@ fn elem_text(class: &str, rng: &mut StdRng) -> String {
 		"u" => pick(rng, &["0", "7", "9223372036854775807", "42"]),
 		"neg" => pick(rng, &["-1", "-9223372036854775808"]),
 		"big" => pick(rng, &["18446744073709551616", "1e30", "1.5", "-0.25"]),
-		"strPlain" => pick(rng, &["\"abc\"", "\"\"", "\"x y\""]),
-		"strDelims" => pick(rng, &["\"a,b]\"", "\"[{,}]: \"", "\",\"", "\"]\""]),
+		"strPlain" => match rng.random_range(0..6) {
+			// long raw non-ASCII strings (2-, 3- and 4-byte characters, shifted by a short ASCII prefix): whatever a reader does
+			// with the text of a value it cannot decode - quote it in an error, cut it - must not depend on where characters begin
+			0 => format!("\"{}{}\"", "abc".chars().take(rng.random_range(0..4)).collect::<String>(), "\u{e9}".repeat(rng.random_range(100..170))),
+			1 => format!("\"{}{}\"", "abc".chars().take(rng.random_range(0..4)).collect::<String>(), "\u{20ac}".repeat(rng.random_range(70..120))),
+			2 => format!("\"{}{}\"", "abc".chars().take(rng.random_range(0..4)).collect::<String>(), "\u{1F600}".repeat(rng.random_range(50..90))),
+			_ => pick(rng, &["\"abc\"", "\"\"", "\"x y\""]),
+		},
+		"strDelims" => match rng.random_range(0..8) {
+			// (long, raw non-ASCII, with delimiters inside - see strPlain)
+			0 => format!("\"{},]{}\"", "abc".chars().take(rng.random_range(0..4)).collect::<String>(), "\u{e9}".repeat(rng.random_range(100..170))),
+			1 => format!("\"{}[{}\"", "abc".chars().take(rng.random_range(0..4)).collect::<String>(), "\u{20ac}".repeat(rng.random_range(70..120))),
+			2 => format!("\"{}}}{}\"", "abc".chars().take(rng.random_range(0..4)).collect::<String>(), "\u{1F600}".repeat(rng.random_range(50..90))),
+			_ => pick(rng, &["\"a,b]\"", "\"[{,}]: \"", "\",\"", "\"]\""]),
+		},
 		"strEsc" => pick(rng, &["\"\\\"q\\\\\\n\"", "\"\\u00e9,]\"", "\"a\\tb\"", "\"\\\\\\\"]\""]),
 		"null" => "null".into(),
 		"true" => "true".into(),
